@@ -244,6 +244,9 @@ impl CL03CommitmentPublicKey {
                 }
             }
 
+            #[cfg(feature = "zkryptium_verif")]
+            crate::verif_hooks::record_modulus_factors(p.to_string(), q.to_string());
+
             let N = p.clone() * q.clone();
             N
         });
